@@ -10,7 +10,8 @@
     the legacy model); [*_spec] is the post-processing of its outcome. *)
 From Coq Require Import NArith ZArith List Bool Arith.
 From PLV Require Import Base.PyStr Tok.PState Tok.Tokenizer Parse.Nodes Parse.Parser Parse.ParseWire
-     Parse.Legacy Proofs.LegacyProofs Proofs.LegacyArgs Proofs.ComposeLegacy.
+     Parse.Legacy Proofs.LegacyProofs Proofs.LegacyArgs Proofs.ComposeLegacy
+     Proofs.ParserTerm Proofs.PremisesReader Proofs.PremisesStar Proofs.PremisesEquiv.
 From PLV Require Gen.GenWalkerCtx.
 Import ListNotations.
 
@@ -173,24 +174,30 @@ Qed.
     As stated it is FALSE of the code by design of the compatibility layer (N1: single-token
     macro arguments get nodeargd = None; N2: the legacy algorithm swallows the "unexpected
     closing brace" error and goes on with an empty chars node), so the relation [agree] is
-    modulo N1 / N2.  Proved ([_partial]):
-    - [C16_legacy_args_equiv_partial]: the legacy loop against the pylatexenc-3 arguments parser
+    modulo N1 / N2 / N4.  Proved:
+    - [C16_legacy_args_equiv_fold]: the legacy loop against the pylatexenc-3 arguments parser
       written as the fold of standard-argument parsers it is ([new_args_loop]; every argument
       with the same fuel), for ALL argument strings over the three characters, all strings, all
       positions, by induction over the argument string; it rests on [expr_shape] /
       [group_shape] (a parsed expression / group ends exactly at the reader position — the
-      content of "re-tokenizing from p = np + nl is threading one reader") and on four explicit
-      premises about single tokens / the reader ([star_premises], [reader_premises]);
-    - [C16_legacy_args_equiv_run_partial]: the same against [run (TArgs ...)] itself; fuel
-      monotonicity of the frozen parser model, formerly a further explicit premise, is now
-      discharged by [Proofs/ParserMono.v: run_mono] ([C16_fuel_monotone]).
+      content of "re-tokenizing from p = np + nl is threading one reader") and on the
+      single-token premise [star_premises] (the reader premises are discharged:
+      [C16_reader_premises]);
+    - [C16_legacy_args_equiv_run_two_fuels], [C16_legacy_args_equiv_parse_fuel]: the same against
+      [run (TArgs ...)] itself ([C16_fuel_monotone]);
+    - [C16_star_premises]: [star_premises] from the decidable context hypothesis
+      [star_free cx = true];
+    - [C16_legacy_args_equiv] (+ [_any_state], [_math]): the equivalence with only
+      [star_free cx = true] left.
     Token parse errors of the look-ahead are not compared (see [agree]). *)
-Theorem C16_legacy_args_equiv_partial : forall s cx ps,
-  star_premises s cx ps -> reader_premises s cx ps ->
+(** (this statement replaces [C16_legacy_args_equiv_partial], which carried the additional
+    premise [reader_premises s cx ps]; that premise is now a theorem, [C16_reader_premises]) *)
+Theorem C16_legacy_args_equiv_fold : forall s cx ps,
+  star_premises s cx ps ->
   forall F a p, forallb argchar_ok a = true ->
     agree (new_args_loop s cx F ps a p [])
           (legacy_parse_args_f s false cx F ps a false None p).
-Proof. exact legacy_args_equiv_fold. Qed.
+Proof. exact legacy_args_equiv_fold_sp. Qed.
 
 (** Fuel monotonicity of the frozen parser model — formerly an explicit premise
     of [C16_legacy_args_equiv_run_partial] — holds of every string and every
@@ -208,34 +215,112 @@ Theorem C16_args_fold_is_run : forall s cx a F F' ps p acc,
   run s false cx F' (TArgs ps (map std_spec a) acc p) = new_args_loop s cx F ps a p acc.
 Proof. exact args_fold_is_run_all. Qed.
 
-(** ... and the legacy algorithm against [run (TArgs ...)] itself WITHOUT the
-    monotonicity premise (this statement replaces the earlier one that carried
-    [fuel_monotone s cx]; it is strictly stronger).  Still [_partial]: the
-    token / reader premises [star_premises], [reader_premises] remain (see the
-    comment above; [star_premises] is not true of every context — a context may
-    declare [*] as a specials — and [reader_premises] are two facts about the
-    strict expression / optional-group parsers that no theorem of the development
-    provides yet). *)
-Theorem C16_legacy_args_equiv_run_partial : forall s cx ps,
-  star_premises s cx ps -> reader_premises s cx ps ->
+(** ... and the legacy algorithm against [run (TArgs ...)] itself, any two fuels with
+    which neither side runs out (these two statements replace
+    [C16_legacy_args_equiv_run_partial] / [C16_legacy_args_equiv_parse_fuel_partial], which
+    carried the additional premise [reader_premises s cx ps], now the theorem
+    [C16_reader_premises]; [star_premises] is characterised by [C16_star_premises] below) *)
+Theorem C16_legacy_args_equiv_run_two_fuels : forall s cx ps,
+  star_premises s cx ps ->
   forall F F' a p, forallb argchar_ok a = true ->
     new_args_loop s cx F ps a p [] <> OutOfFuel ->
     run s false cx F' (TArgs ps (map std_spec a) [] p) <> OutOfFuel ->
     agree (run s false cx F' (TArgs ps (map std_spec a) [] p))
           (legacy_parse_args_f s false cx F ps a false None p).
-Proof. exact legacy_args_equiv_run_all. Qed.
+Proof. exact legacy_args_equiv_run_sp. Qed.
 
-(** with the model's own fuel on both sides (what the executable entry points run) *)
-Theorem C16_legacy_args_equiv_parse_fuel_partial : forall s cx ps,
-  star_premises s cx ps -> reader_premises s cx ps ->
+Theorem C16_legacy_args_equiv_parse_fuel : forall s cx ps,
+  star_premises s cx ps ->
   forall a p, forallb argchar_ok a = true ->
     new_args_loop s cx (parse_fuel s) ps a p [] <> OutOfFuel ->
     run s false cx (parse_fuel s) (TArgs ps (map std_spec a) [] p) <> OutOfFuel ->
     agree (run s false cx (parse_fuel s) (TArgs ps (map std_spec a) [] p))
           (legacy_parse_args s false cx ps a false None p).
-Proof. exact legacy_args_equiv_run_parse_fuel. Qed.
+Proof. exact legacy_args_equiv_parse_fuel_sp. Qed.
 
-(** why [star_premises] remains an explicit premise: it does not hold of every
+(** ** The premises, discharged
+
+    [reader_premises] ("a strict expression parse never yields 'no node'; an absent
+    optional group leaves the reader in place") holds of EVERY string, context and
+    parsing state, with no well-formedness assumption ([Proofs/PremisesReader.v]). *)
+Theorem C16_reader_premises : forall s cx ps, reader_premises s cx ps.
+Proof. exact reader_premises_hold. Qed.
+
+(** [star_premises] holds of every state that tokenizes like the walker's default
+    state (the legacy algorithm reads the star WITHOUT the parsing state), provided
+    no specials of the context IS the string [*] ([star_free cx = true]; implied by
+    "no specials starts with [*]", [star_prefix_free]; necessary:
+    [C16_star_premises_context_dependent]; true of the regenerated default context). *)
+Theorem C16_star_premises : forall s cx ps, star_free cx = true ->
+  (forall p, peek_tok s false ps p = peek_tok s false (walker_state cx) p) ->
+  star_premises s cx ps.
+Proof. exact star_premises_hold. Qed.
+
+Theorem C16_star_prefix_free_star_free : forall cx, star_prefix_free cx = true -> star_free cx = true.
+Proof. exact star_prefix_free_star_free. Qed.
+
+Example C16_star_free_default :
+  star_free Gen.GenWalkerCtx.default_ctx = true /\ star_prefix_free Gen.GenWalkerCtx.default_ctx = true.
+Proof. split; vm_compute; reflexivity. Qed.
+
+(** the [in_math_mode=True] sub-context of the default state (the second state of the
+    harness domain) tokenizes like the default state *)
+Theorem C16_math_state_same_tokens : forall s cx p,
+  peek_tok s false (sub_context (walker_state cx) [UInMath true]) p
+  = peek_tok s false (walker_state cx) p.
+Proof.
+  intros s cx p. rewrite !Proofs.ParserSpansTok.peek_tok_strict. exact (impl_peek_walker_math cx s p).
+Qed.
+
+(** ** The equivalence with only [star_free cx = true] left
+
+    For every string, every context with [star_free cx = true], every argument string
+    over [*[{], every start position and every fuel (the SAME on both sides; no premise
+    about fuel: [agree] holds trivially when the pylatexenc-3 side runs out of fuel,
+    which [C16_legacy_args_run_terminates] excludes at the model's own fuel), in strict
+    mode, under every state that tokenizes like the walker's default state:
+    [run (TArgs (map std_spec a))] succeeds => the legacy algorithm succeeds with the same
+    nodes modulo N1 and the same end position; it fails => the legacy algorithm fails,
+    except for the closing-brace error (N2) and token parse errors (N4), which [agree]
+    does not compare.  No [_partial]: nothing but the (necessary) context hypothesis is
+    left of the premises; what the relation [agree] leaves out is by design of the
+    compatibility layer (N1, N2, N4). *)
+Theorem C16_legacy_args_equiv_any_state : forall s cx, star_free cx = true ->
+  forall ps, (forall p, peek_tok s false ps p = peek_tok s false (walker_state cx) p) ->
+  forall F a p, forallb argchar_ok a = true ->
+    agree (run s false cx F (TArgs ps (map std_spec a) [] p))
+          (legacy_parse_args_f s false cx F ps a false None p).
+Proof. exact legacy_args_equiv_run_star_free. Qed.
+
+(** the executable entry points (fuel [parse_fuel s]) under the walker's default state ... *)
+Theorem C16_legacy_args_equiv : forall s cx, star_free cx = true ->
+  forall a p, forallb argchar_ok a = true ->
+    agree (run s false cx (parse_fuel s) (TArgs (walker_state cx) (map std_spec a) [] p))
+          (legacy_parse_args s false cx (walker_state cx) a false None p).
+Proof. exact legacy_args_equiv_star_free. Qed.
+
+(** ... and under its [in_math_mode=True] sub-context *)
+Theorem C16_legacy_args_equiv_math : forall s cx, star_free cx = true ->
+  forall a p, forallb argchar_ok a = true ->
+    agree (run s false cx (parse_fuel s) (TArgs (sub_context (walker_state cx) [UInMath true]) (map std_spec a) [] p))
+          (legacy_parse_args s false cx (sub_context (walker_state cx) [UInMath true]) a false None p).
+Proof. exact legacy_args_equiv_star_free_math. Qed.
+
+(** [run (TArgs ...)] is the fold of standard-argument parsers whenever it does not run
+    out of fuel (no premise on the fold: it gives every argument at least as much fuel) *)
+Theorem C16_args_run_is_fold : forall s cx a F F' ps p acc, F' <= F ->
+  run s false cx F' (TArgs ps (map std_spec a) acc p) <> OutOfFuel ->
+  run s false cx F' (TArgs ps (map std_spec a) acc p) = new_args_loop s cx F ps a p acc.
+Proof. exact args_run_is_fold. Qed.
+
+(** the pylatexenc-3 side does not run out of the model's own fuel (argument strings up
+    to 37 characters, contexts with at most 10 argument slots per specification) *)
+Theorem C16_legacy_args_run_terminates : forall s cx a p,
+  ctx_wf cx = true -> p <= length s -> length a <= 37 ->
+  run s false cx (parse_fuel s) (TArgs (walker_state cx) (map std_spec a) [] p) <> OutOfFuel.
+Proof. exact legacy_args_run_terminates. Qed.
+
+(** why the context hypothesis [star_free] is needed: [star_premises] does not hold of every
     context — under a context that declares [*] as a specials, the token read at
     a [*] is a specials token with text [*] (so the legacy algorithm, which tests
     for a chars token, and the pylatexenc-3 star argument may differ) *)
@@ -273,6 +358,26 @@ Proof.
   split; [vm_compute; discriminate | vm_compute; reflexivity].
 Qed.
 
+(** non-vacuity of the [star_free] theorems: the hypotheses hold of the default context, and
+    the conclusion is the agreement of two successful, non-trivial runs under the
+    [in_math_mode=True] sub-context ("*[x]\bar{y}z", argument string *[{{) *)
+Example C16_legacy_args_star_free_nonvacuous :
+  let s := [42; 91; 120; 93; 92; 98; 97; 114; 123; 121; 125; 122]%N in
+  let cx := Gen.GenWalkerCtx.default_ctx in
+  let ps := sub_context (walker_state cx) [UInMath true] in
+  let a := [42; 91; 123; 123]%N in
+  star_free cx = true /\ forallb argchar_ok a = true /\ ctx_wf cx = true /\
+  exists nodes,
+    run s false cx (parse_fuel s) (TArgs ps (map std_spec a) [] 0) = Ok (OArgs (Some ([], nodes))) 11
+    /\ legacy_parse_args s false cx ps a false None 0 = LOk (map norm_arg nodes, 11)
+    /\ map norm_arg nodes <> nodes /\ length nodes = 4.
+Proof.
+  cbv zeta. split; [vm_compute; reflexivity|]. split; [vm_compute; reflexivity|].
+  split; [vm_compute; reflexivity|].
+  eexists. split; [vm_compute; reflexivity|]. split; [vm_compute; reflexivity|].
+  split; [vm_compute; discriminate | vm_compute; reflexivity].
+Qed.
+
 Print Assumptions C16_get_token.
 Print Assumptions C16_get_token_brackets.
 Print Assumptions C16_get_latex_nodes.
@@ -291,11 +396,21 @@ Print Assumptions C16_get_latex_maybe_optional_arg.
 Print Assumptions C16_args_spellings.
 Print Assumptions C16_args_spellings_all.
 Print Assumptions C16_std_macro_optnum.
-Print Assumptions C16_legacy_args_equiv_partial.
+Print Assumptions C16_legacy_args_equiv_fold.
 Print Assumptions C16_fuel_monotone.
 Print Assumptions C16_args_fold_is_run.
-Print Assumptions C16_legacy_args_equiv_run_partial.
-Print Assumptions C16_legacy_args_equiv_parse_fuel_partial.
+Print Assumptions C16_legacy_args_equiv_run_two_fuels.
+Print Assumptions C16_legacy_args_equiv_parse_fuel.
+Print Assumptions C16_reader_premises.
+Print Assumptions C16_star_premises.
+Print Assumptions C16_star_prefix_free_star_free.
+Print Assumptions C16_star_free_default.
+Print Assumptions C16_math_state_same_tokens.
+Print Assumptions C16_legacy_args_equiv_any_state.
+Print Assumptions C16_legacy_args_equiv.
+Print Assumptions C16_legacy_args_equiv_math.
+Print Assumptions C16_args_run_is_fold.
+Print Assumptions C16_legacy_args_run_terminates.
 Print Assumptions C16_star_premises_context_dependent.
 Print Assumptions C16_expr_ends_at_reader.
 Print Assumptions C16_group_ends_at_reader.
